@@ -13,7 +13,7 @@ use crate::gen;
 use crate::runner::{guarded, CheckResult, EnumJob, Env, Job, JobReport, Outcome, PropJob};
 use crate::util::{rc, to_ascii, Seq};
 
-pub const RULE: &str = "case = operation history (0..14 ops) over {new, with_capacity(n), blank(n), Vmer::new(n), from_bytes, from_dna_string(text), from_acgt_bytes(text), push, extend(iterator of 0..100 bases incl. exact multiples of 32), push_bytes(packed bytes, count), set_mut, clear} with lengths biased to 0 and multiples of 32, plus a second DnaString with nearby content and a PackedDnaStringSet fed with generated sequences; after EVERY op: len/is_empty/get/iter/IntoIterator/to_bytes/to_ascii_vec/Display/Debug/reverse/rc equal the Vec<u8> model, and ==, Hash, cmp against the string rebuilt from the model by from_bytes and by push agree with the model (lexicographic, proper prefix first); ndiffs/hamming_distance equal the naive count; every sequence added to the packed set is returned unchanged at its index. Non-trivial = >= 3 ops of >= 2 kinds with a non-empty final string.";
+pub const RULE: &str = "case = operation history (0..14 ops) over {new, with_capacity(n), blank(n), Vmer::new(n), from_bytes, from_dna_string(text), from_acgt_bytes(text), push, extend(iterator of 0..100 bases incl. exact multiples of 32), push_bytes(packed bytes, count), set_mut, clear, from_acgt_bytes on raw bytes, from_acgt_bytes_hashn} with lengths biased to 0 and multiples of 32, plus a second DnaString with nearby content and a PackedDnaStringSet fed with generated sequences; after EVERY op: len/is_empty/get/iter/IntoIterator/to_bytes/to_ascii_vec/Display/Debug/reverse/rc equal the Vec<u8> model, and ==, Hash, cmp against the string rebuilt from the model by from_bytes and by push agree with the model (lexicographic, proper prefix first); ndiffs/hamming_distance equal the naive count; every sequence added to the packed set is returned unchanged at its index. A fixed job covers strings and packed-set entries of 65 535 / 65 536 / 65 537 / 70 001 bases with views around the 16-bit boundary. Non-trivial = >= 3 ops of >= 2 kinds with a non-empty final string.";
 pub const TECHNIQUE: &str = "seeded proptest over stateful operation histories against a Vec<u8> model; two-route Eq/Hash/Ord agreement";
 
 #[derive(Debug, Clone, Serialize, Deserialize)]
